@@ -109,18 +109,36 @@ func VerifC09Env(mask, viaStage, free int) {
 // VerifC09Dir: stage dir / task dir / context dir present per mask bits 0..2;
 // every command of the task (before hook, command, after hook) must run in the
 // first non-empty of stage, task, context dir, else the start directory.
+// c09Render: the substitution of a directory template, as far as C09 needs it: a leading
+// {{.D}} is replaced by the value of the variable D (everything else is left alone)
+func c09Render(t string, m map[string]interface{}) (string, error) {
+	const ph = "{{.D}}"
+	if len(t) >= len(ph) && t[:len(ph)] == ph {
+		d, _ := m["D"].(string)
+		return d + t[len(ph):], nil
+	}
+	return t, nil
+}
+
 func VerifC09Dir(mask, viaStage int) {
 	vInstallExecStubs()
+	rt.Redirect("github.com/taskctl/taskctl/pkg/utils.RenderString", c09Render)
 	vParentEnv = nil
 	hasStage, hasTask, hasCtx := mask&1 != 0, mask&2 != 0, mask&4 != 0
 	def := &taskDefinition{Name: "tk", Command: []string{"cmd"}, Before: []string{"b"}, After: []string{"a"}}
+	// directories given literally, or as templates over a task variable ("after variable substitution")
+	base := ""
+	if rt.Bool("dirs-are-templates") {
+		base = "{{.D}}"
+		def.Variables = map[string]string{"D": "/base"}
+	}
 	if hasTask {
-		def.Dir = "/task-dir"
+		def.Dir = base + "/task-dir"
 	}
 	contexts := map[string]*runner.ExecutionContext{}
 	if hasCtx {
 		def.Context = "ctx"
-		c, err := buildContext(&contextDefinition{Dir: "/ctx-dir"})
+		c, err := buildContext(&contextDefinition{Dir: base + "/ctx-dir"})
 		rt.Assert(err == nil, "C09.context-built")
 		contexts["ctx"] = c
 	}
@@ -132,7 +150,7 @@ func VerifC09Dir(mask, viaStage int) {
 		cfg.Tasks["tk"] = t
 		sd := &stageDefinition{Name: "s", Task: "tk"}
 		if hasStage {
-			sd.Dir = "/stage-dir"
+			sd.Dir = base + "/stage-dir"
 		}
 		g, _ := scheduler.NewExecutionGraph()
 		g, err = buildPipeline(g, []*stageDefinition{sd}, cfg)
@@ -146,14 +164,18 @@ func VerifC09Dir(mask, viaStage int) {
 		rt.Assert(r.Run(t) == nil, "C09.task-ran")
 	}
 	want := vStartDir
+	rbase := ""
+	if base != "" {
+		rbase = "/base"
+	}
 	if hasCtx {
-		want = "/ctx-dir"
+		want = rbase + "/ctx-dir"
 	}
 	if hasTask {
-		want = "/task-dir"
+		want = rbase + "/task-dir"
 	}
 	if hasStage {
-		want = "/stage-dir"
+		want = rbase + "/stage-dir"
 	}
 	rt.Assert(len(vInterpRuns) == 3, "C09.hooks-and-command-executed")
 	for i := range vInterpRuns {
